@@ -21,4 +21,4 @@ Definition cloned_scalar_fields : list string := ["name"; "op"; "int_value"; "do
 (* (c) members rewritten / descended into by substitute_type_parameters *)
 Definition subst_string_fields : list string := ["type_name"; "return_type_name"; "pointer_base_type_name"; "sizeof_type_name"; "cast_target_type"].
 Definition subst_ptr_fields : list string := ["sizeof_expr"; "cast_expr"; "left"; "right"; "condition"; "init_expr"; "lambda_body"; "body"].
-Definition subst_vec_fields : list string := ["statements"; "arguments"; "cases"].
+Definition subst_vec_fields : list string := ["statements"; "parameters"; "arguments"; "cases"].
